@@ -11,14 +11,19 @@
 (*   "An index response cut short at any byte is reported as an error by   *)
 (*    every index reader"                                                  *)
 (*       Read(reader, k, err):  k < RespLen(shape) => err                  *)
-(*       Write(failed, ...):    the response keepstore produces when a     *)
-(*          volume fails while being indexed is such a cut-short response: *)
-(*          it must not be complete (status 200 and terminated by the      *)
-(*          empty line), and the real readers reading it over HTTP must    *)
-(*          report an error                                                *)
-(* Nothing is demanded for the complete response (k = RespLen) or for a    *)
-(* writer without failure: whether readers accept those is reported as     *)
-(* drift by checks/C06.py, not judged.                                     *)
+(*       Write(...): the response keepstore's index handler produced was   *)
+(*          also read by the two real readers over HTTP; a 200 response    *)
+(*          that does not end with the empty line is a cut-short response  *)
+(*          (entry lines, possibly a partial one, no terminator), so both  *)
+(*          readers must have reported an error for it:                    *)
+(*                (status = 200 /\ ~term) => (e1 /\ e2)                    *)
+(* The sentence is about READERS.  That keepstore's WRITER leaves out the  *)
+(* terminator when a volume fails while being indexed (failed => status #  *)
+(* 200 \/ ~term) is what makes a failed listing a cut-short response; it   *)
+(* is checked at the model level (IndexFraming.tla, WriterTruncates) and   *)
+(* reported as drift by checks/C06.py, not judged.  Likewise nothing is    *)
+(* demanded for the complete response (k = RespLen) or for a writer        *)
+(* without failure: whether readers accept those is reported as drift.     *)
 (***************************************************************************)
 EXTENDS Naturals, Sequences
 
@@ -46,8 +51,7 @@ Read(reader, err) ==
 \* returned an error; status/term describe the response (term: body is "\n" or ends with "\n\n");
 \* e1/e2: arvados.KeepService index reader / keepclient.GetIndex reported an error for it
 Write(failed, status, term, e1, e2) ==
-    /\ failed => (status # 200 \/ ~term)
-    /\ failed => (e1 /\ e2)
+    /\ (status = 200 /\ ~term) => (e1 /\ e2)
     /\ nread' = nread + 1
     /\ UNCHANGED <<shape, cut>>
 
